@@ -132,6 +132,31 @@ PREFIXES = [
 ]
 
 
+FANOUT_PREFIX = [("connect", "n", "m"), ("connect", "n1", "m"), ("sub", "n", "m", "p", "s", 1), ("sub", "n1", "m", "p", "s", 1),
+                 ("deliver", "n", "m"), ("deliver", "n1", "m"), ("deliver", "m", "n"), ("deliver", "m", "n1")]
+FANOUT_ALPHA = [("publish", "m", "p", "s", None), ("deliver", "m", "n"), ("deliver", "m", "n1"), ("deliver", "n", "m"),
+                ("deliver", "n1", "m"), ("unsub", "n", "m", "p", "s", 1), ("unsub", "n1", "m", "p", "s", 1),
+                ("sub", "n", "m", "p", "s", 2), ("close", "n", "m"), ("close", "m", "n"), ("close", "n1", "m"),
+                ("objremove", "m", "p"), ("objadd", "m", "p")]
+
+
+def run_fanout(seq, rng):
+    """One publisher context m and two subscriber contexts n, n1 subscribed to the same signal."""
+    sim = S.Sim({"n": [], "n1": [], "m": ["p"]})
+    ctr = [0]
+    for op in FANOUT_PREFIX + list(seq):
+        if op[0] == "publish":
+            ctr[0] += 1
+            op = op[:4] + (ctr[0],)
+        sim.do(op)
+    finish(rng, sim, ctr, probes=0)
+    ctr[0] += 1
+    sim.do(("probe", "m", "p", "s", 1000000 + ctr[0]))
+    for x in sim.names:
+        sim.do(("check", x))
+    return sim
+
+
 def run_scripted(pre, seq, rng):
     sim = S.Sim({"n": [], "m": ["p"]})
     ctr = [0]
@@ -249,6 +274,93 @@ def scenario_threads(s, seed, remote, lines=False):
     return obs
 
 
+def scenario_fanout(s, seed, lines=False):
+    """One publisher context c1 and TWO subscriber contexts c2, c3 subscribed to the same signal; publisher
+    threads race with c1's socket thread."""
+    import random
+    import threading as real_threading
+    import qmi.core.context as C
+    import qmi.core.rpc as R
+    import qmi.core.pubsub as P
+    from qmi.core.config_defs import CfgQmi, CfgContext
+    from qmi.core.exceptions import QMI_TimeoutException
+    logging.disable(logging.CRITICAL)
+    rng = random.Random(seed)
+    obs = {"pubs": [], "queues": {}, "done": False}
+    s.obs = obs
+    s.recording = False
+
+    class Pub(R.QMI_RpcObject):
+        s = P.QMI_Signal([int])
+
+    port = 54000 + (seed % 500)
+    c1 = C.QMI_Context("c1", CfgQmi(contexts={"c1": CfgContext(host="127.0.0.1", tcp_server_port=port)}))
+    c1.start()
+    c1.make_rpc_object("pub", Pub)
+    subs = []
+    for nm in ("c2", "c3", "c4")[:rng.choice([2, 2, 3])]:
+        c = C.QMI_Context(nm)
+        c.start()
+        c.connect_to_peer("c1", "127.0.0.1:%d" % port)
+        r = P.QMI_SignalReceiver()
+        c.subscribe_signal("c1", "pub", "s", r)
+        subs.append((nm, c, r))
+    nthreads = rng.choice([1, 2])
+
+    def publisher(k, n):
+        for i in range(n):
+            a = k * 1000 + i
+            c1.publish_signal("pub", "s", a)
+            obs["pubs"].append(a)
+
+    threads = [real_threading.Thread(target=publisher, args=(k, rng.randint(1, 4)), name="pub%d" % k) for k in range(nthreads)]
+    if lines:
+        line_yields(P)
+    s.recording = True
+    for t in threads:
+        t.start()
+    for t in threads:
+        t.join()
+    s.recording = False
+    dsched.FAKE_TIME.sleep(1.0)
+    for nm, c, r in subs:
+        q = []
+        while True:
+            try:
+                g = r.get_next_signal(0)
+            except QMI_TimeoutException:
+                break
+            q.append([g.publisher_context, g.publisher_name, g.signal_name, g.args[0] if len(g.args) == 1 else -1])
+        obs["queues"][nm] = q
+    obs["done"] = True
+    for nm, c, r in subs:
+        c.stop()
+    c1.stop()
+    return obs
+
+
+def fanout_oracle(obs):
+    """Every subscriber context's receiver was subscribed before the first publication and stays subscribed:
+    it must get every publication exactly once, with the right fields, each thread's in order."""
+    pubs = sorted(obs["pubs"])
+    for nm, q in obs["queues"].items():
+        got = [a for (_, _, _, a) in q]
+        for rec in q:
+            if rec[:3] != ["c1", "pub", "s"] or rec[3] not in pubs:
+                return "wrong-record", "receiver in %s got %r which was never published" % (nm, rec)
+        for a in pubs:
+            n = got.count(a)
+            if n == 0:
+                return "missing-record", "receiver in %s never got publication %d (queues: %r)" % (nm, a, obs["queues"])
+            if n > 1:
+                return "duplicate-record", "receiver in %s got publication %d %d times (queues: %r)" % (nm, a, n, obs["queues"])
+        for k in (0, 1):
+            mine = [a for a in got if a // 1000 == k]
+            if mine != sorted(mine):
+                return "order", "receiver in %s got the publications of thread %d as %r" % (nm, k, mine)
+    return None
+
+
 def thread_oracle(obs, remote):
     """C07 on the call log of real threads: ops are intervals [t0,t1] of a global tick counter."""
     pubs = {e[3]: e for e in obs["log"] if e[0] == "pub"}
@@ -345,6 +457,14 @@ def run_sims(ck, profile):
             continue
         seen.add(sig)
         sims.append((sim, "exhaustive"))
+    for d in range(0, 3 if ck.tier == "quick" else 4):
+        for seq in itertools.product(FANOUT_ALPHA, repeat=d):
+            sim = run_fanout(seq, rng)
+            sig = repr([e.get("label") for e in sim.trace])
+            if sig in seen:
+                continue
+            seen.add(sig)
+            sims.append((sim, "fanout-2-subscriber-contexts"))
     nrand = (500 if ck.tier == "quick" else 20000)
     for _ in range(nrand):
         sims.append((random_history(rng, profile), "random"))
@@ -464,6 +584,23 @@ def run(ck):
             ck.report("oracle:c07:threads:%s" % bad[0], "C07 fails on real threads: " + bad[1],
                       dict(rp, log=res["obs"]["log"], queues=res["obs"]["queues"]))
         ck.count("threads:records", sum(len(q) for q in res["obs"]["queues"].values()))
+    nfan = 300 if ck.tier == "quick" else 8000
+    jobs = [(scenario_fanout, (ck.rng.randint(0, 10 ** 6), i % 3 == 0), dict(strategy="random" if i % 2 else "pct", seed=i))
+            for i in range(nfan)]
+    results = dsched.run_forked(jobs, nproc=16, wall_timeout=60.0)
+    for (fn, args, kw), res in zip(jobs, results):
+        ck.note_case(("fanout", args, kw["seed"], tuple(res.get("choices") or ())[:50]), True)
+        ck.count("fanout%s:%s" % ("+lines" if args[1] else "", res["status"]))
+        rp = {"kind": "fanout", "seed": args[0], "lines": args[1], "sched": kw, "schedule": res.get("choices")}
+        if res["status"] != "ok" or not (res.get("obs") or {}).get("done"):
+            ck.report("oracle:c07:fanout:%s" % res["status"],
+                      "fan-out run did not finish (%s): %s" % (res["status"], str(res.get("info") or res.get("trace"))[:400]), rp)
+            continue
+        bad = fanout_oracle(res["obs"])
+        if bad:
+            ck.report("oracle:c07:fanout:%s" % bad[0], "C07 fails on real contexts (one publisher, several subscriber contexts): " + bad[1],
+                      dict(rp, queues=res["obs"]["queues"], pubs=res["obs"]["pubs"]))
+        ck.count("fanout:records", sum(len(q) for q in res["obs"]["queues"].values()))
     return ck.finish("exhaustive op sequences (12-letter alphabet, 3 prefixes) + seeded random histories on 1-3 contexts with "
                      "re-entrant interleaving inside publish + random thread schedules of real contexts; non-trivial = at "
                      "least one record or message delivered; distinct by label sequence")
@@ -471,6 +608,19 @@ def run(ck):
 
 def replay(rep):
     c = rep["case"]
+    if c.get("kind") == "fanout":
+        import qmi.core.context, qmi.core.rpc, qmi.core.pubsub, qmi.core.messaging, qmi.core.task  # noqa
+        res = dsched.run_forked([(scenario_fanout, (c["seed"], bool(c.get("lines"))),
+                                  dict(strategy="replay", schedule=list(c["schedule"] or [])))], nproc=1, wall_timeout=60.0)[0]
+        print("status:", res["status"])
+        if res["status"] != "ok":
+            print(res.get("info") or res.get("trace"))
+            return 1
+        print("published:", res["obs"]["pubs"])
+        print("queues:", res["obs"]["queues"])
+        bad = fanout_oracle(res["obs"])
+        print("oracle:", bad or "property holds on this schedule")
+        return 1 if bad else 0
     if c.get("kind") == "threads":
         import qmi.core.context, qmi.core.rpc, qmi.core.pubsub, qmi.core.messaging, qmi.core.task  # noqa
         res = dsched.run_forked([(scenario_threads, (c["seed"], c["remote"], bool(c.get("lines"))),
